@@ -62,23 +62,25 @@ LEAN = {
     "reader": "Contracts.Reader",
     "pipeline": "Contracts.Pipeline",
     "roundtrip": "Contracts.RoundTrip",
+    "final": "Contracts.Final",
     "v3000": "Contracts.V3000",
     "v2000": "Contracts.V2000",
 }
 
 PROPS = {
-    "C01": dict(probes=["v3"], functions=CANON + SERIAL, lean=["pipeline", "canonicalize", "finallabels", "layout", "serialize"], diff=["pipeline"], bounded=[("pipeline", "c01")],
+    "C01": dict(probes=["v3"], functions=CANON + SERIAL + V3000 + V2000, lean=["pipeline", "canonicalize", "finallabels", "layout", "serialize", "reader"], diff=["pipeline", "io"],
+                bounded=[("pipeline", "c01"), ("c01_text", None)],
                 canary="C01"),
     "C02": dict(probes=["v3"], functions=CANON + SERIAL + PARSER, lean=["roundtrip", "layout", "parser", "canonicalize"], diff=["pipeline", "parser"], bounded=[("c02", None)]),
-    "C03": dict(probes=["v3"], functions=CANON + SERIAL + PARSER, lean=["roundtrip", "layout", "parser", "canonicalize", "finallabels"], diff=["pipeline", "parser"], bounded=[("pipeline", "c03")]),
+    "C03": dict(probes=["v3"], functions=CANON + SERIAL + PARSER, lean=["final", "roundtrip", "layout", "parser", "canonicalize", "finallabels"], diff=["pipeline", "parser"], bounded=[("pipeline", "c03")]),
     "C04": dict(probes=["v3"], functions=CANON, lean=["canonicalize"], diff=["pipeline"], bounded=[("pipeline", "c04")]),
     "C05": dict(functions=SERIAL + V3000 + V2000, lean=["pipeline", "layout", "serialize", "reader"], diff=["pipeline"], bounded=[("c05", None)]),
-    "C06": dict(functions=CANON + SERIAL + V3000 + V2000, lean=["pipeline", "reader", "v3000", "v2000"], diff=["pipeline", "io"], bounded=[("c06", None)]),
+    "C06": dict(functions=CANON + SERIAL + V3000 + V2000, lean=["final", "pipeline", "reader", "v3000", "v2000"], diff=["pipeline", "io"], bounded=[("c06", None)]),
     "C07": dict(functions=V3000, lean=["reader", "v30line", "v3000"], diff=["io"], bounded=[("c07", None)]),
-    "C08": dict(functions=V2000 + V3000, lean=["v2000", "reader"], diff=["io"], bounded=[("c08", None)]),
-    "C09": dict(probes=["v5"], functions=WRITER + V3000, lean=["writer", "v30line"], diff=["io"], bounded=[("c09", None)]),
+    "C08": dict(functions=V2000 + V3000, lean=["final", "v2000", "reader"], diff=["io"], bounded=[("c08", None)]),
+    "C09": dict(probes=["v5"], functions=WRITER + V3000, lean=["final", "writer", "v30line"], diff=["io"], bounded=[("c09", None)]),
     "C10": dict(functions=PARSER, lean=["parser"], diff=["parser"], bounded=[("c10", None)]),
-    "C11": dict(probes=["v3"], functions=PARSER + CANON + SERIAL, lean=["roundtrip", "parser", "canonicalize", "layout", "finallabels"], diff=["parser", "pipeline"], bounded=[("c11", None)]),
+    "C11": dict(probes=["v3"], functions=PARSER + CANON + SERIAL, lean=["final", "roundtrip", "parser", "canonicalize", "layout", "finallabels"], diff=["parser", "pipeline"], bounded=[("c11", None)]),
     "C12": dict(functions=CANON + SERIAL, lean=["canonicalize", "relabel", "finallabels"], diff=["pipeline"], bounded=[("pipeline", "c12")]),
     "C13": dict(probes=[], functions=CANON, lean=["canonicalize", "partition"], diff=["pipeline"], bounded=[("pipeline", "c13")]),
     "C14": dict(functions=CANON + SERIAL + PARSER + V3000 + V2000 + WRITER, lean=[], diff=[], bounded=[("c14", None)]),
@@ -95,23 +97,23 @@ TOP = {
                 note="hypotheses: WF graphs produced by the readers/parser (invariant code determines the identity attributes), SetLawful (any set order), BlissLawful (assumed bliss contract, probe V3)"),
     "C02": dict(level="proof", theorems=["Contracts.RoundTrip.C02_pipeline'", "Contracts.RoundTrip.C02_main'", "Contracts.RoundTrip.render_inj"],
                 note="equal strings imply a colour-preserving isomorphism of the input molecules; unconditional on ANTLR (proved through injectivity of the rendering); under BlissLawful/SetLawful only for the pipeline runs to succeed"),
-    "C03": dict(level="other", theorems=["Contracts.RoundTrip.C03_pipeline", "Contracts.RoundTrip.C03_main", "Contracts.RoundTrip.denote_astOf", "Contracts.Parser.graph_from_tree_ok"],
-                note="first clause (parse(tucan(G)) is identity-isomorphic to G, same atom and bond counts) proved under assumption V4 (ANTLR returns the tree of the grammar on the emitted string); the fixed-point clause is the composition with C01_main and stays bounded until Contracts/Final.lean is registered"),
+    "C03": dict(level="proof", theorems=["Contracts.Final.C03_fixpoint", "Contracts.Final.C03_fixpoint_ex", "Contracts.RoundTrip.C03_pipeline", "Contracts.RoundTrip.C03_main", "Contracts.Parser.graph_from_tree_ok"],
+                note="both clauses proved under assumption V4 (ANTLR returns the tree of the grammar on the emitted string; bounded differential probe), BlissLawful, SetLawful; molecules are reader/parser output (MolOK, InvariantCodeOK)"),
     "C04": dict(level="proof", theorems=["Contracts.Canonicalize.C04_main"], note="under BlissLawful; requires that equal invariant codes imply equal identity attributes (true for reader/parser output)"),
     "C05": dict(level="proof", theorems=["Contracts.Pipeline.C05_pipeline", "Contracts.Layout.Grammar.tucanSpec_in_grammar", "Contracts.Layout.tuples_layout", "Contracts.Layout.blocks_layout", "Contracts.Layout.formula_layout"],
                 note="grammar = tucan.ebnf transcribed into Lean at character level; preconditions (symbols from the element table, positive mass/rad, no self-loop) are what the readers/parser guarantee after fixes D3, D7, D8"),
-    "C06": dict(level="other", theorems=["Contracts.Pipeline.C06_graph_half", "Contracts.Reader.same_identity_ctab", "Contracts.Reader.graph_from_molfile_text_dress_irrelevant", "Contracts.Reader.splitlines_crlf"],
-                note="graph->string half and V3000 reader half proved; V2000 half is characterised per file but the pairing of two renderings is bounded"),
+    "C06": dict(level="proof", theorems=["Contracts.Final.C06_reader_text", "Contracts.Final.C06_reader", "Contracts.Final.C08_agree", "Contracts.Pipeline.C06_graph_half", "Contracts.Reader.splitlines_crlf", "Contracts.Reader.graph_from_molfile_text_dress_irrelevant"],
+                note="V3000 files with arbitrary headers, blank runs, cut points, separators, index values, coordinates, charges, bond types, foreign keywords; star-atom tables are outside the file-level theorem (covered by the V3000 contracts and the bounded part)"),
     "C07": dict(level="proof", theorems=["Contracts.Reader.graph_from_molfile_text_render_ok", "Contracts.Reader.fileMeaning_plain_graph", "Contracts.V3000._parse_atom_attributes_ok", "Contracts.V30Line.splice_phys"],
                 note="renderer with arbitrary blank runs, cut points, header lines, separators; float() opaque (V5); tokens must not contain Unicode blanks outside the model's isPySpace"),
-    "C08": dict(level="other", theorems=["Contracts.Reader.graph_from_molfile_text_v2000", "Contracts.V2000._parse_attribute_block_ok", "Contracts.V2000.specGet_mass_kept"],
-                note="V2000 reading proved against its own spec; equality with the V3000 reading of the same abstract molecule is bounded"),
-    "C09": dict(level="proof", theorems=["Contracts.Writer.C09", "Contracts.Writer.C09_line_length", "Contracts.Writer.C09_splice", "Contracts.Writer.C09_atom_roundtrip", "Contracts.Writer.C09_bond_roundtrip"],
-                note="coordinates: reading back gives parseFloat(fmt6 x); 'to six decimals' then rests on the float law V5 (probed); TUCAN->molfile->TUCAN corollary is bounded"),
+    "C08": dict(level="proof", theorems=["Contracts.Final.C08_agree", "Contracts.Reader.graph_from_molfile_text_v2000", "Contracts.V2000._parse_attribute_block_ok", "Contracts.V2000.specGet_mass_kept"],
+                note="a V2000 text and a V3000 rendering with the same identity data are both read and get the same TUCAN string; charges/bond types are characterised by the V2000 contracts (specGet)"),
+    "C09": dict(level="proof", theorems=["Contracts.Writer.C09", "Contracts.Final.C09_tucan", "Contracts.Final.C09_string", "Contracts.Writer.C09_line_length", "Contracts.Writer.C09_splice", "Contracts.Writer.C09_atom_roundtrip"],
+                note="coordinates: reading back gives parseFloat(fmt6 x); 'to six decimals' rests on the float law V5 (probed); radicals 1..3 as in the property's quantifier (the writer drops RAD > 3)"),
     "C10": dict(level="other", theorems=["Contracts.Parser.graph_from_tree_ok", "Contracts.Parser.graph_from_tree_error_is_TPE", "Contracts.Parser.int_total"],
                 note="semantic half proved; the recogniser half (ANTLR accepts exactly tucan.g4) cannot be proved here and is bounded (assumption V4)"),
-    "C11": dict(level="other", theorems=["Contracts.RoundTrip.C11_main", "Contracts.RoundTrip.C11_denote", "Contracts.Pipeline.C01_tucan"],
-                note="respelling invariance of the parsed graph proved on syntax trees (V4 for string -> tree); composition with the pipeline (norm) and idempotence stay bounded until Contracts/Final.lean is registered"),
+    "C11": dict(level="proof", theorems=["Contracts.Final.C11_norm", "Contracts.Final.C11_norm_text", "Contracts.Final.C11_idem_text", "Contracts.RoundTrip.C11_main"],
+                note="respellings as relation Respell on syntax trees (same formula, same bond set, permuted attribute settings; renumbering inside an element block is covered by C01); string level under assumption V4"),
     "C12": dict(level="proof", theorems=["Contracts.Canonicalize.C12_main", "Contracts.FinalLabels.serialize_molecule_frame_eq", "Contracts.FinalLabels.serialize_molecule_repeat"],
                 note="'argument unchanged' is the frame obligation of canonicalize_molecule (no mutated parameter) — back end: extractor"),
     "C13": dict(level="proof", theorems=["Contracts.Canonicalize.C13_main", "Contracts.Canonicalize.C13_classes", "Contracts.Canonicalize.C13_automorphism", "Contracts.Partition.refine_equitable"],
